@@ -433,7 +433,7 @@ def epochNow (epoch : Nat) (hs : Host) : Nat := epoch + simNow hs
 
 def opClock (w : World) (h : Nat) : World × String :=
   let hs := w.host! h
-  (w, s!"ok elapsed={elapsedNow hs} sim={simNow hs} epoch={epochNow 1700000000000000000 hs} inst={hs.hnow - hs.t0}")
+  (w, s!"ok elapsed={elapsedNow hs} sim={simNow hs} epoch={epochNow 1700000000123456789 hs} inst={hs.hnow - hs.t0}")
 
 /-- one host at the end of a step: its timer advances by exactly one tick whether or not it runs;
     a running host's runtime clock has advanced by `A`. -/
